@@ -63,19 +63,34 @@ def build(spec):
     cls = {"H": xgi.Hypergraph, "D": xgi.DiHypergraph, "S": xgi.SimplicialComplex}[spec["cls"]]
     obj = cls()
     for n in spec["nodes"]:
-        obj.add_node(n, **spec.get("nattr", {}).get(n, {}))
+        obj.add_node(n)
+        a = spec.get("nattr", {}).get(n, {})
+        if a:
+            obj.set_node_attributes({n: a})  # through a mapping: an attribute may be named like a parameter
     for pos, (i, m) in enumerate(spec["edges"]):
         attr = spec.get("eattr", {}).get(pos, {})
         mem = (list(m[0]), list(m[1])) if spec["cls"] == "D" else list(m)
+        before = set(obj.edges) if (attr and i is None) else None
         if spec["cls"] == "S":
             if i is None:
-                obj.add_simplex(mem, **attr)
+                obj.add_simplex(mem)
             else:
-                obj.add_simplex(mem, idx=i, **attr)
+                obj.add_simplex(mem, idx=i)
         elif i is None:
-            obj.add_edge(mem, **attr)
+            obj.add_edge(mem)
         else:
-            obj.add_edge(mem, idx=i, **attr)
+            obj.add_edge(mem, idx=i)
+        if attr:
+            if i is None:
+                new = [e for e in obj.edges if e not in before]
+                eid = new[0] if new else None
+                if spec["cls"] == "S" and new:
+                    want = frozenset(mem)
+                    eid = next((e for e in new if frozenset(obj.edges.members(e)) == want), new[0])
+            else:
+                eid = i
+            if eid is not None and eid in obj.edges:
+                obj.set_edge_attributes({eid: attr})
     for k, v in spec.get("net", {}).items():
         obj[k] = v
     return obj
@@ -379,6 +394,21 @@ def wide():
     b = relabel(a, node_map={i: "n%d" % i for i in range(12)}, edge_ids=["e%d" % i for i in range(len(pairs))])
     c = relabel(a, node_map={i: 100 - 7 * i for i in range(12)}, edge_ids=[50 - 3 * i for i in range(len(pairs))], reverse_nodes=True)
     return [a, b, c]
+
+
+def big():
+    """Networks in which a *count* exceeds 127 and 255: one edge with 130 members, two nodes sharing 130 (multi-)edges.  Counts are what matrix entries, products of incidence matrices and Laplacian diagonals hold;
+    a narrow integer type is exact on every small network and wraps here."""
+    a = H([list(range(130)), [0, 1], [1, 2, 3]], nodes=list(range(130)))
+    b = H([[0, 1]] * 130 + [[1, 2]], nodes=[0, 1, 2])
+    return [a, b]
+
+
+def big_complexes():
+    """A star with 130 leaves plus one filled triangle (vertex 0 has 130 cofaces), and 130 triangles on one edge."""
+    star = S([[0, i] for i in range(1, 131)] + [[1, 2, 0]], nodes=list(range(131)))
+    book = S([[0, 1, i] for i in range(2, 132)], nodes=list(range(132)))
+    return [star, book]
 
 
 def exotic_label_maps(nodes):
